@@ -37,6 +37,7 @@ func runC28(w *World, r *Report) {
 	r.Rule("R-C28-3", "atomic check-then-act: between a lookup in a cache map and a later mutation of that map in the same function no unlock of cacheLock can occur", 3)
 	r.Rule("R-C28-4", "bound: in Add the store into Items is reachable only through the len(Items) < MaxSize edge", 1)
 	r.Rule("R-C28-5", "eviction pairing: after delete(Items, key) in Delete and sweepExpired every path to a return passes notifyEvictions, called without cacheLock", 2)
+	c28HitRenews(w, r)
 	r.Rule("R-C28-6", "lifetime: cacheList entries are never deleted; Cache.Expiration is stored only in SetExpiration and newCache; newCache is called only on the record-absent edge", 4)
 
 	ci := loadCaches(w, r)
@@ -645,5 +646,104 @@ func c28Lifetime(w *World, r *Report, ci *cachesInfo) {
 				}
 			}
 		})
+	}
+}
+
+// c28HitRenews: R-C28-8. A lookup that finds an entry keeps it alive for the
+// cache's configured lifetime counted from that lookup ("Reset the expiration
+// time on every hit"): on the found path of Find the entry is written back
+// with Expires computed from time.Now() and Cache.Expiration before the value
+// is returned, on every path. A renewal that depends on how old the entry is
+// lets the sweeper remove an entry one lifetime after it was stored although
+// it was used in between, and the next lookup misses a key nobody deleted.
+func c28HitRenews(w *World, r *Report) {
+	r.Rule("R-C28-8", "a hit renews the entry: in caches.Find every path from the found edge of the Items lookup to a return that hands out the value passes the write-back of the entry (map update of Items) with Expires computed from time.Now() and Cache.Expiration", 1)
+
+	cp := w.pkg("internal/caches")
+	if cp == nil {
+		return
+	}
+
+	fn := w.ssaFunc(cp, "Find")
+	if fn == nil {
+		r.Anchor("R-C28-8", "caches.Find")
+
+		return
+	}
+
+	var lookup *ssa.Lookup
+
+	allInstrs(fn, func(in ssa.Instruction) {
+		if lk, ok := in.(*ssa.Lookup); ok && lk.CommaOk && isFieldNamed(lk.X, "Items") {
+			lookup = lk
+		}
+	})
+
+	if lookup == nil {
+		r.Anchor("R-C28-8", "the Items lookup in caches.Find")
+
+		return
+	}
+
+	key := "caches.Find|hit renews the entry"
+
+	// not-found edges are irrelevant: remove them
+	cuts := cutEdges(fn, func(f Fact) bool {
+		if f.Kind != "false" {
+			return false
+		}
+
+		e, ok := f.V.(*ssa.Extract)
+
+		return ok && e.Tuple == ssa.Value(lookup) && e.Index == 1
+	})
+
+	isRenewal := func(in ssa.Instruction) bool {
+		mu, ok := in.(*ssa.MapUpdate)
+
+		return ok && isFieldNamed(mu.Map, "Items")
+	}
+
+	// the renewal's Expires comes from Now + Expiration
+	fromNow := false
+
+	allInstrs(fn, func(in ssa.Instruction) {
+		st, ok := in.(*ssa.Store)
+		if !ok {
+			return
+		}
+
+		fa, ok := st.Addr.(*ssa.FieldAddr)
+		if !ok || fieldName(fa.X.Type(), fa.Field) != "Expires" {
+			return
+		}
+
+		if derivesFrom(st.Val, func(s ssa.Value) bool {
+			c, ok := s.(*ssa.Call)
+
+			return ok && callID(c.Common()) == "time.Now"
+		}, func(string) bool { return true }) && derivesFrom(st.Val, func(s ssa.Value) bool { return isFieldNamed(s, "Expiration") }, func(string) bool { return true }) {
+			fromNow = true
+		}
+	})
+
+	escape := pathAvoiding(lookup, cuts, isRenewal, func(i ssa.Instruction) bool {
+		ret, ok := i.(*ssa.Return)
+		if !ok || len(ret.Results) < 2 {
+			return false
+		}
+
+		b, isC := constBool(retResult(ret, 1))
+
+		return !isC || b // a return that says "found"
+	})
+
+	switch {
+	case !fromNow:
+		r.Violate("R-C28-8", key, w.pos(lookup.Pos()), "Find does not compute a renewed Expires from time.Now() and the cache's Expiration")
+	case escape != nil:
+		r.Violate("R-C28-8", key, w.pos(escape.Pos()), "Find can hand out a found value without writing the entry back with a renewed expiry: an entry that is used but not renewed is removed one lifetime after it was stored, and the next lookup misses a key that was never deleted, purged or left unused for a lifetime")
+	default:
+		r.Discharge("R-C28-8", key, w.pos(lookup.Pos()), "the write-back lies on every found path")
 	}
 }
